@@ -17,6 +17,7 @@ var checks = map[string]func(*engine.Report){
 	"C09": engine.CheckC09,
 	"C13": engine.CheckC13,
 	"C18": engine.CheckC18,
+	"C17": engine.CheckC17,
 	"C15": engine.CheckC15,
 	"C16": engine.CheckC16,
 	"C02": engine.CheckC02,
@@ -54,6 +55,10 @@ func main() {
 		r := engine.NewReport(id, tier, seed)
 		f(r)
 		os.Exit(r.Finish())
+	case "c17worker":
+		i, _ := strconv.Atoi(os.Args[2])
+		n, _ := strconv.Atoi(os.Args[3])
+		engine.C17Worker(i, n, os.Args[4])
 	case "replay":
 		os.Exit(engine.Replay(os.Args[2]))
 	default:
